@@ -1,5 +1,5 @@
 """Property -> rules table.  Rules are functions (ctx, repo)."""
-from .rules import ndim, iface, wrappers, rng, mech, errmodels, popmodels, switch, copies, cursors, reduced, layout, noise, filters, caches, problems, dosing, sbml, predictive, inference, plots, loglik, purity, lint, forward, contracts
+from .rules import ndim, iface, wrappers, rng, mech, errmodels, popmodels, switch, copies, cursors, reduced, layout, noise, filters, caches, problems, dosing, sbml, predictive, inference, plots, loglik, purity, lint, forward, contracts, atomic
 
 PROPS = {}
 
@@ -170,7 +170,7 @@ prop('C06',
                  'correctly; reported moments equal the closed-form moments.')
 
 prop('C07',
-     [layout.r07_1, layout.r07_3, layout.r07_4, layout.r07_5, layout.r07_6, iface.r02_7, rng.r16_2,
+     [layout.r07_1, layout.r07_3, layout.r07_4, layout.r07_5, layout.r07_6, iface.r02_7, rng.r16_2, atomic.r11_9,
       popmodels.r05_2, layout.r02_3],
      undecided=['sort stability of np.argsort for large selections',
                 'numerical equality with the per-individual evaluation'],
@@ -192,7 +192,7 @@ prop('C07',
 prop('C08',
      [reduced.r08_1, reduced.r08_2, reduced.r08_3, reduced.r08_4, reduced.r08_6,
       caches.r08_5, switch.r08_7, wrappers.r02_2, forward.r02_8, iface.r02_7,
-      copies.r19_3],
+      copies.r19_3, atomic.r11_9, atomic.r11_10],
      undecided=['value equality of evaluations', 'nan in released slots'],
      assumptions=COMMON_ASSUME,
      technique='def-use provenance of the parameter vector through the '
@@ -255,7 +255,7 @@ prop('C10',
 
 prop('C11',
      [mech.r11_1, mech.r11_2, mech.r11_5, mech.r11_7, mech.r11_8, sbml.r09_6, sbml.r09_7, sbml.r09_8, copies.r11_3, copies.r11_6,
-      switch.r08_7],
+      switch.r08_7, atomic.r11_9, atomic.r11_10],
      undecided=['equality of simulation results (ODE solver)'],
      assumptions=COMMON_ASSUME,
      technique='path-sensitive typestate over the statement paths of every '
@@ -312,7 +312,7 @@ prop('C13',
 prop('C17',
      [layout.r05_3, layout.r02_4, layout.r13_1, layout.r07_1,
       wrappers.r02_2, forward.r02_8, reduced.r08_4, reduced.r08_6, caches.r08_5, layout.r07_3, popmodels.r17_4, switch.r08_7, CUR_HIER,
-      CUR_LL],
+      CUR_LL, atomic.r11_9, atomic.r11_10],
      undecided=['uniqueness of run-time names (string contents)',
                 'bounded enumeration of deeper compositions'],
      assumptions=COMMON_ASSUME + ['numpy reshape/flatten are C-ordered'],
@@ -387,7 +387,8 @@ prop('C16',
 
 prop('C18',
      [inference.r18_1, inference.r18_2, inference.r18_3, inference.r18_4, CUR_INIT,
-      iface.r02_6, layout.r02_4, layout.r13_1, rng.r16_1, rng.r16_5],
+      iface.r02_6, layout.r02_4, layout.r13_1, rng.r16_1, rng.r16_5,
+      atomic.r11_10],
      undecided=['xarray selection semantics', 'equality of dataset entries '
                 'with the raw chain'],
      assumptions=COMMON_ASSUME,
@@ -407,7 +408,7 @@ prop('C18',
 
 prop('C19',
      [copies.r19_3, copies.r11_3, copies.r11_6, switch.r03_5, mech.r11_1,
-      mech.r11_5, purity.r19_1, purity.r19_2, plots.r20_2, plots.r20_4, switch.r08_7,
+      mech.r11_5, purity.r19_1, purity.r19_2, purity.r19_4, plots.r20_2, plots.r20_4, switch.r08_7,
       caches.r08_5],
      undecided=['multi-process behaviour (pickling, fork)',
                 'exception paths'],
